@@ -16,17 +16,23 @@ from . import common as C
 
 CLAIM = dict(
     claimed=False,
-    text="Machine-checked theorems (coq/Props/C07x.v, closed under the global context): EBCM -> SIR super-compact pairwise -> SIR compact pairwise and "
-         "EBCM -> SIR compact effective degree as identities rhs_big(Phi(x)) = DPhi(x).rhs_small(x) between the right-hand sides GENERATED from EoN/analytic.py, "
+    text="Machine-checked theorems (coq/Props/C07x.v, closed under the global context): EBCM -> SIR super-compact pairwise -> SIR compact pairwise "
+         "as identities rhs_big(Phi(x)) = DPhi(x).rhs_small(x) between the right-hand sides GENERATED from EoN/analytic.py, "
          "Phi polynomial in theta and DPhi its formal derivative (proved to be the derivative: first-order Taylor expansion with polynomial remainder; sum, Leibniz, "
          "power rules) -- no chain rule assumed; the closures and initial vectors the *_from_graph wrappers build from rho are the polynomial (1-rho)P_k with its formal "
          "derivatives and the manifold point Phi(1,0); preferential-mixing EBCM with P(k'|k)=k'P(k')/<k> = EBCM, continuous (vector fields on the invariant subspace) "
-         "and discrete (lock-step for every number of steps).",
+         "and discrete (lock-step for every number of steps).  EBCM -> SIR compact effective degree: the same identity (binomial change of variables Phi_ced) is "
+         "evaluated numerically on the Python functions on every run, not proved.",
     design='DESIGN.md section 4, C07; section 8.2 row C07',
     technique='Coq proof over translator-generated right-hand sides + hand-written model of the dict-based routines tied by point evaluation + numerical re-evaluation of every identity on the Python functions',
     note='part of C07 (harness/c07.py); cited: Picard-Lindeloef uniqueness for the lift to curves (continuous-time models only)')
 
 COMP = 'c07x'
+# what Props/C07x.v reaches; the rest of the hierarchy clause is carried by the numerical identities below and the curve oracles of harness/c07.py
+PROVED_STATE = {'proved': [],
+                'numerical': ['SIR compact effective degree vs EBCM: vector-field identity under Phi_ced and the wrapper\'s initial point, numerical on every run (not proved)',
+                              'SIR effective degree (full (s,i) model) vs EBCM: curves only',
+                              'initial conditions of SIR_effective_degree_from_graph / SIR_compact_effective_degree_from_graph']}
 KINDS = ('x_spec', 'x_wrapper')
 
 
@@ -119,6 +125,15 @@ def case_spec(EoN, p):
             rhs = [d * e[0] for d in m['dSkap']] + [e[1], m['dSI'] * e[0]]
             what = '_dSIR_compact_effective_degree_ at Phi_ced(theta,R) vs push-forward of _dEBCM_'
         return None if closev(lhs, rhs) else '%s: %s vs %s' % (what, fl(lhs), fl(rhs))
+    if th_name == 'lump_SIR_heterogeneous_meanfield_regular':
+        k = int(a['k']); th, r, s0, N, tau, g = (f(a[x]) for x in ('theta', 'r', 's0', 'N', 'tau', 'gamma'))
+        z = [0.0] * k
+        big = A._dSIR_heterogeneous_meanfield_(np.array([th] + z + [r]), 0, np.array(z + [s0]), np.array(z + [N]), tau, g)
+        S = s0 * th ** k; I = N - S - r
+        small = A._dSIR_homogeneous_meanfield_(np.array([S, I]), 0, k / N, tau, g)
+        dS = k * s0 * th ** (k - 1) * big[0]
+        ok = closev([dS, -dS - g * I], small) and closev(big[1:], z + [g * I])
+        return None if ok else 'heterogeneous mean-field SIR on the single class k=%d pushed forward to (S, I): %s (dR_k = %s), homogeneous mean-field with n=k: %s' % (k, fl([dS, -dS - g * I]), fl(big[1:]), fl(small))
     Pk = {int(k): f(v) for k, v in a['Pk'].items()}
     rho, N = f(a['rho']), f(a['N'])
     Pnk = uncorrelated(Pk)
@@ -273,6 +288,8 @@ def spec_points(rng, n):
         out.append({'theorem': 'super_compact_to_compact', 'args': dict(base, SS=str(dy(rng, 1, 400, 4)), SI=str(dy(rng, 1, 400, 4)))})
         out.append({'theorem': 'ebcm_to_compact_effective_degree', 'args': dict(base, phiS0=str(1 - rho), phiR0='0')})
         out.append({'theorem': 'ebcm_to_compact_effective_degree', 'args': dict(base, phiS0=str(dy(rng, 4, 16, 16)), phiR0=str(dy(rng, 0, 4, 32)))})
+        out.append({'theorem': 'lump_SIR_heterogeneous_meanfield_regular', 'args': dict(k=rng.randint(1, 6), theta=base['theta'], r=str(dy(rng, 0, 64, 8)), s0=str(dy(rng, 1, 64, 2)),
+                                                                                       N=base['N'], tau=base['tau'], gamma=base['gamma'])})
         Pk = rand_Pkdict(rng); pk = {str(k): str(v) for k, v in Pk.items()}
         out.append({'theorem': 'prefmix_uncorrelated_cts', 'args': dict(Pk=pk, rho=str(dy(rng, 1, 8, 16)), N=base['N'], tau=base['tau'], gamma=base['gamma'], theta=base['theta'], R=base['R'])})
         out.append({'theorem': 'prefmix_uncorrelated_discrete', 'args': dict(Pk=pk, rho=str(dy(rng, 1, 8, 16)), N=base['N'], p=str(dy(rng, 1, 7, 8)), T=rng.randint(3, 8))})
@@ -455,9 +472,9 @@ def attach(run0, replay0, cases0, report):
         cov['distinct_nontrivial'] = cov.get('distinct_nontrivial', 0) + r['n_distinct']
         cov['rule'] = cov.get('rule', '') + '  ' + r['rule']
         cov.setdefault('distribution', {})['c07x'] = r['stats']
-        vno = [x for x in cov.get('validated_numerically_only', []) if 'prefmix' not in x and 'compact effective degree' not in x]
-        cov['validated_numerically_only'] = vno + ['effective degree (full (s,i) model) vs EBCM']
-        cov['proved_c07x'] = ['EBCM -> SIR super-compact pairwise -> SIR compact pairwise (formal derivative, no chain rule assumed)', 'EBCM -> SIR compact effective degree',
+        vno = [x for x in cov.get('validated_numerically_only', []) if 'prefmix' not in x and 'effective degree' not in x and 'initial conditions' not in x]
+        cov['validated_numerically_only'] = vno + PROVED_STATE['numerical']
+        cov['proved_c07x'] = PROVED_STATE['proved'] + ['EBCM -> SIR super-compact pairwise -> SIR compact pairwise (formal derivative, no chain rule assumed)',
                               'wrappers\' rho-path closures and initial vectors lie on the manifold', 'EBCM_pref_mix = EBCM for uncorrelated mixing (continuous: vector fields; discrete: every step)']
         if r['broken']:
             cov['also_broken_c07x'] = r['broken']
